@@ -1367,10 +1367,11 @@ where
             resent = resent.saturating_add(1);
             true // Keep in store
         });
-        // Retransmitted exchanges are in flight on this connection: count them
-        // against the peer's Receive Maximum (their acknowledgements decrement it).
+        // The retransmitted exchanges are exactly the ones in flight on this new connection
+        // (a PUBLISH queued while connecting is part of the store and was counted when queued):
+        // count them against the peer's Receive Maximum; their acknowledgements decrement it.
         if self.publish_send_max.is_some() {
-            self.publish_send_count = self.publish_send_count.saturating_add(resent);
+            self.publish_send_count = resent;
         }
 
         events
